@@ -1294,8 +1294,14 @@ lyd_diff_apply_r(struct lyd_node **first_node, struct lyd_node *parent_node, con
             /* special case of only dflt flag change */
             if (diff_node->flags & LYD_DEFAULT) {
                 match->flags |= LYD_DEFAULT;
+
+                /* parent NP containers may have become default */
+                lyd_np_cont_dflt_set(lyd_parent(match));
             } else {
                 match->flags &= ~LYD_DEFAULT;
+
+                /* parent NP containers are no longer default */
+                lyd_np_cont_dflt_del(lyd_parent(match));
             }
         } else {
             /* none operation on nodes without children is redundant and hence forbidden */
